@@ -14,6 +14,11 @@ def M(entries, tag=""):
     return {"k": "map", "entries": [[k, v] for k, v in entries], "tag": tag}
 
 
+def _key_text(k):
+    # a tagged key such as "!switch u" (computed-field switch expressions) is written as is
+    return k if k.startswith("!switch ") else _scalar_text(k)
+
+
 def _scalar_text(v):
     if v == "" or any(ch in v for ch in ":{}[],&*#?|-<>=!%@`\"'\n") or v.strip() != v or v in ("~", "null", "true", "false") and False:
         if v in ("~",):
@@ -34,6 +39,6 @@ def render(n, indent=0, flow=False):
             return tag + "{}"
         lines = []
         for k, v in n["entries"]:
-            lines.append("%s: %s" % (_scalar_text(k), render(v, 0, True)))
+            lines.append("%s: %s" % (_key_text(k), render(v, 0, True)))
         return ("\n".join(lines) + "\n") if not tag else tag + "{" + ", ".join(lines) + "}"
-    return tag + "{" + ", ".join("%s: %s" % (_scalar_text(k), render(v, 0, True)) for k, v in n["entries"]) + "}"
+    return tag + "{" + ", ".join("%s: %s" % (_key_text(k), render(v, 0, True)) for k, v in n["entries"]) + "}"
